@@ -313,6 +313,13 @@ class Formatter:
     ###########
 
     @final
+    def escape_str_value(self, value: str) -> str:
+        """Escapes the characters that can't be inside a double-quoted string literal
+        directly. The escaped form works for C, Go and Python."""
+        escapes = {"\\": "\\\\", '"': '\\"', "\n": "\\n", "\r": "\\r", "\t": "\\t"}
+        return "".join(escapes.get(c, c) for c in value)
+
+    @final
     def format_token_location(self, node: Node) -> str:
         """Format the source location mark for given node."""
         return f"@@L{node.lineno}"
